@@ -581,6 +581,11 @@ impl<'a> VisitMut for Norm<'a> {
                     let ex = &f.expr;
                     *f.expr = parse_quote!(#ex.into_vec());
                     self.bump("R-ITER(for)");
+                } else if self.spec.foriter.contains(&n) {
+                    // R-FORITER: `for P in E` over a modelled collection (by reference) -> `for P in E.vx_iter().into_vec()`
+                    let ex = &f.expr;
+                    *f.expr = parse_quote!(#ex.vx_iter().into_vec());
+                    self.bump("R-FORITER");
                 }
                 if let Some(lbl) = self.spec.loop_labels.get(&n) {
                     let w = Ident::new(&format!("__vx_it_{}", lbl), Span::call_site());
